@@ -25,6 +25,7 @@ import (
 
 	"golang.org/x/tools/go/ssa"
 
+	"wtfverif/checker/internal/interval"
 	"wtfverif/checker/internal/ssau"
 	"wtfverif/checker/internal/symx"
 )
@@ -87,6 +88,20 @@ func Classify(fn *ssa.Function, sx *symx.Ctx) []*Loop {
 		for _, b := range fn.Blocks {
 			if b == rl.Header || rl.InLoop(b) {
 				l.Blocks[b] = true
+			}
+		}
+		// a map known to hold at most one entry where the loop starts has only
+		// one iteration order
+		if sx != nil {
+			f := sx.Of(fn)
+			q := interval.New(f)
+			if rg, ok := rl.Next.Iter.(*ssa.Range); ok {
+				at := rg.Block()
+				iv := q.GuardBoundFrom("len("+f.E(rl.Over)+")", at, interval.Iv{Lo: 0, LoOK: true})
+				if iv.HiOK && iv.Hi <= 1 {
+					out = append(out, l)
+					continue
+				}
 			}
 		}
 		l.classify(sx)
